@@ -94,8 +94,9 @@ def renderSide (o : Opts) (rq rs : Side) (d : Bool) (evs : List (Bool × Ev)) : 
   let content := match st.content with | some c => showBytes c | none => "none"
   s!"{if err then 1 else 0} {if relayed then 1 else 0} {showNatList smp} {showChunks peer} {content}"
 
-/-- request body, then response body, through the same HttpStream -/
-def exch (lim thr store p1 e1 s1 c1 p2 e2 s2 c2 : String) : String :=
+/-- request body and response body through the same HttpStream; the response block arrives after `at` request data
+    events (`none`: after the end of the request; `some none`: never) -/
+def exchAt (pos : Option (Option Nat)) (lim thr store p1 e1 s1 c1 p2 e2 s2 c2 : String) : String :=
   match optOf lim, optOf thr, policyOf p1, expOf e1, chunksOf c1, policyOf p2, expOf e2, chunksOf c2 with
   | some l, some t, some (pq, fq), some eq, some cq, some (pr, fr), some er, some cr =>
     match l, t with
@@ -104,12 +105,19 @@ def exch (lim thr store p1 e1 s1 c1 p2 e2 s2 c2 : String) : String :=
       let o : Opts := { limit := l, thr := t, store := store == "1" }
       let rq : Side := ⟨pq, fq⟩
       let rs : Side := ⟨pr, fr⟩
-      let evq : List (Bool × Ev) := ((Ev.headers eq (s1 == "1")) :: (cq.map Ev.data ++ [Ev.eom])).map (fun e => (false, e))
+      let tagq := fun (e : Ev) => ((false, e) : Bool × Ev)
       let evr : List (Bool × Ev) := ((Ev.headers er (s2 == "1")) :: (cr.map Ev.data ++ [Ev.eom])).map (fun e => (true, e))
-      let evs := evq ++ evr
+      let dq := cq.map Ev.data
+      let evs : List (Bool × Ev) := match pos with
+        | none => (Ev.headers eq (s1 == "1") :: (dq ++ [Ev.eom])).map tagq ++ evr
+        | some none => (Ev.headers eq (s1 == "1") :: (dq ++ [Ev.eom])).map tagq
+        | some (some k) => (Ev.headers eq (s1 == "1") :: dq.take k).map tagq ++ evr ++ (dq.drop k ++ [Ev.eom]).map tagq
       renderSide o rq rs false evs ++ " | " ++ renderSide o rq rs true evs
     | _, _ => "rejected"
   | _, _, _, _, _, _, _, _ => "bad-op"
+
+def exch (lim thr store p1 e1 s1 c1 p2 e2 s2 c2 : String) : String :=
+  exchAt none lim thr store p1 e1 s1 c1 p2 e2 s2 c2
 
 def stepLine (line : String) : String :=
   match fields line with
@@ -122,6 +130,12 @@ def stepLine (line : String) : String :=
   | ["flow", dir, lim, thr, store, pol, exp, endS, chunks] => flow dir lim thr store pol exp endS chunks
   | ["wire", dir, lim, thr, store, pol, fr, segs, close] => wire dir lim thr store pol fr segs close
   | ["exch", lim, thr, store, p1, e1, s1, c1, p2, e2, s2, c2] => exch lim thr store p1 e1 s1 c1 p2 e2 s2 c2
+  | ["exchi", pos, lim, thr, store, p1, e1, s1, c1, p2, e2, s2, c2] =>
+    if pos = "-" then exchAt (some none) lim thr store p1 e1 s1 c1 p2 e2 s2 c2
+    else if pos = "end" then exchAt none lim thr store p1 e1 s1 c1 p2 e2 s2 c2
+    else match pos.toNat? with
+      | some k => exchAt (some (some k)) lim thr store p1 e1 s1 c1 p2 e2 s2 c2
+      | none => "bad-op"
   | _ => "bad-op"
 
 end C07Driver
